@@ -1375,6 +1375,7 @@ def _parsing(interp, args, kwargs):
     info = object.__new__(file_interpreter._SourceInfoForInterpreterWithArgumentList)
     info.path = new_opaque(interp, SourcePathSdvI, 'act.source-file')
     info.arguments = new_opaque(interp, ActArgumentsSdvI, 'act.arguments')
+    interp.st.ghost['file-interpreter.parsed'] = info      # (what was parsed: named by the symbol-usages clause)
 
     class _P:
         def parse(self):
@@ -1405,6 +1406,14 @@ def file_interpreter_argv(cmd, trace, j):
         and len(ic._arguments) == n
 
 
+def _is_concatenation_of_3(xs, a, b, c, j):
+    """xs == a ++ b ++ c (element j of each part, j arbitrary: a universally quantified index as a ghost)"""
+    return len(xs) == len(a) + len(b) + len(c) \
+        and ((not (0 <= j < len(a))) or xs[j] is a[j]) \
+        and ((not (0 <= j < len(b))) or xs[len(a) + j] is b[j]) \
+        and ((not (0 <= j < len(c))) or xs[len(a) + len(b) + j] is c[j])
+
+
 M.contract('exactly_lib.impls.actors.file_interpreter:_Actor.parse',
            params=dict(self=Inst(file_interpreter._Actor, _interpreter=Iface(InterpreterCommandSdvI)),
                        instructions=Any_),
@@ -1413,7 +1422,15 @@ M.contract('exactly_lib.impls.actors.file_interpreter:_Actor.parse',
            ensures={'for every resolving environment: the command to execute is interpreter + source file + arguments '
                     '(the interpreter\'s own argument list is not modified)': lambda result, env, trace, j:
            type(result) is file_interpreter._ActionToCheck
-           and file_interpreter_argv(result._make_command(env), trace, j)},
+           and file_interpreter_argv(result._make_command(env), trace, j),
+                    # C03 / C08: the symbols of everything that is resolved when the command is made are reported as
+                    # symbol usages, so that they are validated before anything is executed (seeded change C03-s8)
+                    'symbol usages: the references of the interpreter, of the source file and of the arguments':
+                        lambda self, result, ghost, j:
+                        _is_concatenation_of_3(result._symbol_usages, self._interpreter.references,
+                                               ghost['file-interpreter.parsed'].path.references,
+                                               ghost['file-interpreter.parsed'].arguments.references, j)},
+           props=('C10', 'C03', 'C08'),
            raises_only=())
 
 
